@@ -66,6 +66,8 @@ type Env struct {
 	H    http.Handler
 	tagN atomic.Int64
 	Name string
+	// IDPConf is the configuration object the provider was built from (the integrator keeps it too).
+	IDPConf *provider.IdentityProviderConfig
 	// Cancellable gives every request a context that CancelRequest can cancel from inside a storage call (the
 	// client goes away at that very moment).
 	Cancellable bool
@@ -134,7 +136,7 @@ func New(o Opts) (*Env, error) {
 	if err != nil {
 		return nil, err
 	}
-	return &Env{W: w, P: p, O: o, H: p.HttpHandler()}, nil
+	return &Env{W: w, P: p, O: o, H: p.HttpHandler(), IDPConf: idpc}, nil
 }
 
 // Static returns an environment with the default static issuer.
